@@ -36,11 +36,11 @@ def run(ck):
         "a CRC-32 collision between a torn state and its header would be a genuine acceptance of a mixture (expected once per 2^32 states)",
     ]
     ck.finish("fault_enumeration",
-              "for previous file state in {absent, shorter, equal length, longer; one or two generations} x payload sizes {0, 1..40, ~512, ~1024, 2000..6000} x deadlines past/future: the write() sequence of the new save is recorded by a "
+              "for previous file state in {absent, shorter, equal length, longer; one or two generations} x payload sizes {0, 1..40, ~512, ~1024, 2000..6000, 33000..70000} x deadlines past/future: the write() sequence of the new save is recorded by a "
               "link-time shim, then every prefix of it, every byte prefix of the data area (all in thorough, <=300 per write in quick), subsets of touched 512-byte sectors (all when <=12 sectors in thorough) and real child-process "
               "crashes after exactly k bytes are each followed by the real load(): result must be 'no session' (file unlinked) or a complete earlier/in-flight payload with a deadline of some save that is not in the past; "
               "garbage collection is run on directories of live, expired, unreadable and foreign files against a model. Concurrent part: 1..3 owner threads (expired save, live save, load) against a gc thread and 0..2 loader "
               "threads, and against gc/loader processes forked after the storage was created, for plain-mutex, process-shared-mutex and fcntl locking, under ASan and ThreadSanitizer; pre-forked workers (2..3 processes x 2..3 owner threads plus a loader each, ids spread over the lock slots), the same with one more worker leaving in an orderly way, and a worker killed inside save() followed by load/save probes from another process (a probe that has not returned after 60 s counts as blocked). non-trivial = distinct (old file, new payload) cases",
               "crash_states", "cases", min_evals=20000,
               required_nonzero=("states_prefix", "states_byte_prefix", "states_sector_subset", "states_real_crash", "loads_returning_a_session", "loads_reporting_no_session", "gc_files_judged", "garbage_size_field_cases", "conc_rounds", "conc_gc_runs", "conc_disturber_loads", "unlinks_delayed", "conc_scenarios_processes_fcntl", "conc_scenarios_threads_pshared-mutex",
-                                "conc_scenarios_workers_fcntl", "conc_scenarios_workers_pshared-mutex", "conc_scenarios_worker_left_pshared-mutex", "savers_killed_while_saving", "probes_after_killed_saver"))
+                                "conc_scenarios_workers_fcntl", "conc_scenarios_workers_pshared-mutex", "conc_scenarios_worker_left_pshared-mutex", "savers_killed_while_saving", "probes_after_killed_saver", "cases_with_payload_over_32k"))
